@@ -6,6 +6,7 @@ evaluates on every real table dump). Model: Model/Sorter.lean, Model/TableId.lea
 import WrglModel.Model.TableId
 import WrglModel.Spec.TableInv
 import WrglModel.Lemmas.C01
+import WrglModel.Lemmas.C03Producers
 import WrglModel.Gen.Facts
 namespace Wrgl
 
@@ -46,5 +47,100 @@ theorem C03_offsets (blocks : List (List Row)) (b i : Nat) (blk : List Row) (r :
   have h2 : (b * Facts.blockSize + i) % Facts.blockSize = i := by
     rw [Nat.mul_comm, Nat.mul_add_mod]; exact Nat.mod_eq_of_lt hbs
   rw [h1, h2, hb]; simpa using hi
+
+/-! ### the other producers -/
+
+theorem C03_fact_indexTableComparesSums : Facts.indexTableComparesIndexSums = true := by decide
+theorem C03_fact_indexTableEntryIsFirstRowKey : Facts.indexTableEntryIsFirstRowKey = true := by decide
+
+/-- Receipt over the wire, any table object (honest or not) whose blocks are stored: if the receiver
+    (`saveTable` → `IndexTable`) accepts it, then the only clauses of the invariant that can fail
+    are the three that speak about the rows themselves. Everything about indices holds by
+    construction: one index per block, each holding exactly (H key, H row) per row in row order,
+    sorted by key hash, and the table index lists the first key of every block. The accepted table's
+    declared block-index sums are the sums of those recomputed indices. -/
+theorem C03_receive_index_clauses (H : Bytes → Bytes) (sortPerm : List Bytes → List Nat) (hp : IsSortPerm sortPerm)
+    (mc : Nat) (o : TableObj) (getBlock : Bytes → Option (List Row)) (ft : FullTable)
+    (h : receiveTable H sortPerm mc Facts.indexTableChecksKeyAndWidth Facts.indexTableComparesIndexSums o getBlock = .ok ft) :
+    (∀ c ∈ tableInv Facts.blockSize ft, c ∈ rowClauses) ∧
+    o.blockIndices = ft.indices.map (fun idx => H (blockIndexBytes idx.sortedOff idx.rows)) := by
+  refine ⟨C03P.receive_index_clauses H sortPerm hp mc _ _ Facts.blockSize o getBlock ft h, ?_⟩
+  obtain ⟨_, _, _, _, _, ei, _, _, hc⟩ := C03P.receiveTable_ok H sortPerm mc _ _ o getBlock ft h
+  rw [ei]; exact hc C03_fact_indexTableComparesSums
+
+/-- Receipt of a table that satisfied the invariant where it came from (same description, same
+    rows in the same blocks — what C07 proves the transfer delivers): the received table satisfies
+    every clause at the destination. -/
+theorem C03_receive_inv (H : Bytes → Bytes) (sortPerm : List Bytes → List Nat) (hp : IsSortPerm sortPerm)
+    (mc : Nat) (o : TableObj) (getBlock : Bytes → Option (List Row)) (ft src : FullTable)
+    (h : receiveTable H sortPerm mc Facts.indexTableChecksKeyAndWidth Facts.indexTableComparesIndexSums o getBlock = .ok ft)
+    (hsrc : tableInv Facts.blockSize src = [])
+    (hrc : src.rowsCount = o.rowsCount) (hpk : src.pk = o.pk) (hblocks : o.blocks.mapM getBlock = some src.blocks) :
+    tableInv Facts.blockSize ft = [] := by
+  obtain ⟨hb, _, epk, erc, _, _, _, _, _⟩ := C03P.receiveTable_ok H sortPerm mc _ _ o getBlock ft h
+  have eb : ft.blocks = src.blocks := by rw [hblocks] at hb; exact (Option.some.inj hb).symm
+  have cs := (C03P.tableInv_nil_iff _ src).1 hsrc
+  have hsub := (C03_receive_index_clauses H sortPerm hp mc o getBlock ft h).1
+  -- the three row clauses carry over
+  have c1 : (ft.rowsCount == (ft.blocks.map List.length).sum) = true := by rw [erc, eb, ← hrc]; exact cs.c1
+  have c2 : blockSizesOk Facts.blockSize (ft.blocks.map List.length) = true := by rw [eb]; exact cs.c2
+  have c3 : strictAsc (ft.blocks.flatten.map (keyOf ft.pk)) = true := by rw [eb, epk, ← hpk]; exact cs.c3
+  cases hti : tableInv Facts.blockSize ft with
+  | nil => rfl
+  | cons c rest =>
+    exfalso
+    have hc : c ∈ tableInv Facts.blockSize ft := by rw [hti]; simp
+    have hr := hsub c hc
+    unfold tableInv at hc
+    simp only [c1, c2, c3, if_true, List.nil_append, List.mem_append] at hc
+    unfold rowClauses at hr
+    simp only [List.mem_cons, List.not_mem_nil, or_false] at hr
+    rcases hc with ((hc | hc) | hc) | hc <;>
+      (have e := C03P.mem_ite_single hc; rw [e] at hr; revert hr; decide)
+
+/-- The order of the rows is NOT re-checked on receipt: a table object listing two one-row blocks
+    in descending key order, with truthful index sums, is accepted by the receiver model. C03 is
+    therefore a property of what the repository's own sender ships (C07), not of hostile input. -/
+theorem C03_receive_order_is_the_senders (H : Bytes → Bytes) (sortPerm : List Bytes → List Nat) :
+    ∃ (o : TableObj) (getBlock : Bytes → Option (List Row)) (ft : FullTable),
+      receiveTable H sortPerm 65535 true true o getBlock = .ok ft ∧
+      "keys-strictly-ascending" ∈ tableInv Facts.blockSize ft := by
+  let b1 : List Row := [[[50]]]
+  let b2 : List Row := [[[49]]]
+  let get : Bytes → Option (List Row) := fun s => if s == [1] then some b1 else if s == [2] then some b2 else none
+  let idx := fun (b : List Row) => indexBlock H sortPerm 65535 [0] b
+  let sum := fun (b : List Row) => H (blockIndexBytes (idx b).sortedOff (idx b).rows)
+  let o : TableObj := { columns := [[97]], pk := [0], rowsCount := 2, blocks := [[1], [2]], blockIndices := [sum b1, sum b2] }
+  refine ⟨o, get, { columns := o.columns, pk := o.pk, rowsCount := 2, blocks := [b1, b2], hashes := [b1, b2].map (fun b => b.map (rowHashes H 65535 o.pk)), indices := [idx b1, idx b2], tblIdx := [[[50]], [[49]]] }, ?_, ?_⟩
+  · simp [receiveTable, o, get, b1, b2, idx, sum, indexTable, indexTable.go, List.mapM_cons, List.mapM_nil]
+  · unfold tableInv
+    simp [b1, b2, o, keyOf, strictAsc, keyCmp, bytesCmp]
+
+/-- The repository's own diagnosis (`doctor`, `diagnoseCommit`) reports nothing for a table that
+    satisfies the invariant, whose key positions lie inside the column list and whose key columns
+    have names. -/
+theorem C03_diagnose_complete (t : FullTable) (hinv : tableInv Facts.blockSize t = [])
+    (hh : t.hashes.map List.length = t.blocks.map List.length)
+    (hpk : t.pk.any (fun k => decide (k ≥ t.columns.length)) = false)
+    (hnames : t.pk.any (fun k => ((t.columns[k]?).getD []).isEmpty) = false) :
+    diagnose t = none :=
+  C03P.diagnose_none Facts.blockSize t hinv hh hpk hnames
+
+/-- … in particular for everything ingest stores (commit, merge result, doctor's re-ingest). -/
+theorem C03_ingest_diagnosis_clean (H : Bytes → Bytes) (sortPerm : List Bytes → List Nat) (hp : IsSortPerm sortPerm)
+    (sortFn : List Row → List Row) (pk : List Nat) (hs : IsSort pk sortFn)
+    (w : Nat) (mc : Nat) (runSize : Nat) (columns : Row) (rows : List Row) (t : StoredTable) (hw : RowsWF w pk rows)
+    (h : ingestTable sortFn Facts.blockSize Facts.addRowMaxCell runSize columns pk rows = .ok t)
+    (hpk : t.pk.any (fun k => decide (k ≥ t.columns.length)) = false)
+    (hnames : t.pk.any (fun k => ((t.columns[k]?).getD []).isEmpty) = false) :
+    diagnose (fullTableOfStored H sortPerm mc pk t) = none := by
+  apply C03_diagnose_complete _ (C03_ingest_inv H sortPerm hp sortFn pk hs w mc runSize columns rows t hw h) _ hpk hnames
+  simp [fullTableOfStored, Function.comp_def]
+
+/-- non-vacuity: a concrete two-block-free table meets the hypotheses of `C03_diagnose_complete` -/
+example : tableInv 255 { columns := [[97]], pk := [0], rowsCount := 1, blocks := [[[[49]]]], hashes := [[([1], [2])]], indices := [{ sortedOff := [0], rows := [([1], [2])] }], tblIdx := [[[49]]] } = [] := by decide
+
+/-- the diagnosis is not vacuous either: a recorded row count that is off by one is reported -/
+example : diagnose { columns := [[97]], pk := [0], rowsCount := 2, blocks := [[[[49]]]], hashes := [[([1], [2])]], indices := [{ sortedOff := [0], rows := [([1], [2])] }], tblIdx := [[[49]]] } = some "rows count does not match" := by decide
 
 end Wrgl
